@@ -585,7 +585,9 @@ def check_doc(env, i, acc=None):
     # R5 ---------------------------------------------------------------
     if env.hl and distinct:
         H = _hl()
-        if env.flags.get("hlq") == "ends" or (env.nchunks and env.nchunks[i] >= 4):
+        # thorough tier, 4-chunk texts: lighter highlight programme (see run())
+        light = bool(env.nchunks and env.nchunks[i] >= 4)
+        if env.flags.get("hlq") == "ends" or light:
             hterms = [distinct[0]] if len(distinct) == 1 else [distinct[0], distinct[-1]]
         else:
             hterms = distinct
@@ -611,8 +613,12 @@ def check_doc(env, i, acc=None):
                     sub = "%s/%s" % (frname, path)
                     subs_run.add(sub)
                     outs = []
+                    allfm = (not light) or (frname == "WholeFragmenter" and not terms)
                     try:
-                        for fm in _formatters():
+                        for fi, fm in enumerate(_formatters()):
+                            if fi != 1 and not allfm:
+                                outs.append(None)
+                                continue
                             r.fragmenter = getattr(H, frname)()
                             r.formatter = fm
                             cnt("r5_highlight_calls")
@@ -628,7 +634,7 @@ def check_doc(env, i, acc=None):
                         cnt("r5_pinpoint_stored_chars_path")
                     if not ht:
                         cnt("r5_empty_highlight")
-                        if up or nu:
+                        if allfm and (up or nu):
                             P5.append((5, "formatter-disagree", sub, "text %r query %s: html '' but upper %r null %r" % (text, qrepr, up, nu)))
                         continue
                     cnt("r5_nonempty_highlights")
@@ -640,9 +646,9 @@ def check_doc(env, i, acc=None):
                         if (sub, kind) not in flagged:
                             flagged.add((sub, kind))
                             P5.append((5, kind, sub, "text %r query %s terms=%s: %s" % (text, qrepr, terms, detail)))
-                    if plain != nu:
+                    if allfm and plain != nu:
                         flag("formatter-disagree", "html stripped %r != null formatter %r" % (plain, nu))
-                    if upper != up:
+                    if allfm and upper != up:
                         flag("formatter-disagree", "html with marked spans uppercased %r != uppercase formatter %r" % (upper, up))
                     for frag in plain.split(SENT):
                         if frag not in text:
@@ -886,10 +892,12 @@ def run(ctx):
         "positional fields when index and query tokens coincide at consecutive positions",
         "R2 is skipped (counted) when query-time analysis yields no token",
         "R4 re-analysis demands only that the token's text is among the tokens of text[startchar:endchar]",
-        "R5: highlight queries are Term(t) for every distinct index token (n-gram configurations and, in the thorough "
-        "tier, 4-chunk texts: first and last token) and And(query tokens); search(terms=True) is combined with the "
-        "Whole and Pinpoint fragmenters only (it changes nothing else for the others); GenshiFormatter is not "
-        "installed and skipped",
+        "R5: highlight queries are Term(t) for every distinct index token (n-gram configurations: first and last "
+        "token) and And(query tokens); search(terms=True) is combined with the Whole and Pinpoint fragmenters only "
+        "(it changes nothing else for the others); GenshiFormatter is not installed and skipped",
+        "R5 on the 4-chunk texts of the thorough tier (texts of <=3 chunks get the full programme in both tiers): "
+        "Term(first token), Term(last token), And(query tokens); every fragmenter with the HtmlFormatter, the three "
+        "formatters compared on the WholeFragmenter only",
         "the 70-character word is periodic (period 10) so that n-gram configurations have few distinct grams",
     ]
     results = ctx.pmap(task, tasks, absorb=False)
